@@ -93,13 +93,19 @@ func genPlan(t *rapid.T) Plan {
 		}
 		p.Rows = append(p.Rows, r)
 	}
+	if rapid.IntRange(0, 2).Draw(t, "clean") == 0 {
+		// a list every entry of which speaks what the receiver's members speak: the exchange should go through
+		for i := range p.Rows {
+			p.Rows[i].Vsn = []uint8{1, 5, uint8(rapid.SampledFrom([]int{2, 2, 3, 5}).Draw(t, "cpc")), 0, 0, 0}
+		}
+	}
 	p.UserLen = rapid.SampledFrom([]int{0, 0, 7, 1000, 65536}).Draw(t, "userlen")
 	p.UpgradeWho = rapid.SampledFrom([]string{"", "", "m1", "m2"}).Draw(t, "upgrade")
 	if p.UpgradeWho != "" {
 		p.VsnOld = rapid.SampledFrom([][]uint8{{1, 5, 2, 0, 0, 0}, {1, 5, 2, 0, 0, 0}, {3, 5, 3, 0, 0, 0}, {1, 5, 2, 0, 1, 1}}).Draw(t, "vsnold")
 		p.VsnNew = rapid.SampledFrom([][]uint8{{3, 5, 3, 0, 0, 0}, {1, 3, 2, 0, 0, 0}, {1, 2, 2, 0, 0, 0}, {4, 5, 4, 0, 0, 0}, {1, 5, 2, 0, 1, 1}, {1, 5, 2, 1, 1, 1}, {1, 5, 5, 0, 0, 0}}).Draw(t, "vsnnew")
 	}
-	p.Fault = rapid.SampledFrom([]string{"none", "none", "cut", "cut", "cut", "wrongkey", "wronglabel", "plaintext", "overcap-nodes", "overcap-state"}).Draw(t, "fault")
+	p.Fault = rapid.SampledFrom([]string{"none", "none", "none", "none", "cut", "cut", "cut", "wrongkey", "wronglabel", "plaintext", "overcap-nodes", "overcap-state"}).Draw(t, "fault")
 	p.CutPos = rapid.SampledFrom([]int{0, 1, 2, 10, 500, 900, 990, 998, 999, rapid.IntRange(0, 999).Draw(t, "cutany")}).Draw(t, "cutpos")
 	p.CutMode = rapid.SampledFrom([]string{"reset", "eof", "eof", "stall"}).Draw(t, "cutmode")
 	p.CutAt = rapid.SampledFrom([]string{"permille", "permille", "userstate", "userstate", "userstate-1", "userstate+1", "rows"}).Draw(t, "cutat")
